@@ -6,6 +6,7 @@ import (
 	"strings"
 
 	bexpr "github.com/hashicorp/go-bexpr"
+	"github.com/hashicorp/go-bexpr/grammar"
 )
 
 // Families added after the sixth round of seeded changes ("ordinary maintenance slips").
@@ -331,6 +332,191 @@ func c18UnknownSubstitution(r *Run) {
 				if again := exprObs(e, p.missing(), bexpr.WithUnknownValue("earlier"), bexpr.WithUnknownValue(u)); again != got {
 					r.Violate("last-wins", fmt.Sprintf("unknown|%d|%d|%s", pi, ui, f), c, "WithUnknownValue(earlier), WithUnknownValue(u): "+again+"; WithUnknownValue(u) alone: "+got)
 				}
+			}
+		}
+	}
+}
+
+// ---------- round ten: families added after the tenth batch of seeded changes ----------
+
+// C04: subjects beyond any sensible size cap - `not matches` stays the negation of `matches`
+func c04HugeSubjects(r *Run) {
+	for _, n := range []int{65535, 65536, 65537, 1 << 20} {
+		for _, d := range []interface{}{map[string]interface{}{"body": strings.Repeat("a", n)}, map[string]interface{}{"body": []byte(strings.Repeat("a", n))}} {
+			for _, p := range []string{"`^a+$`", "`b`", "`a$`"} {
+				pos, neg, wrapped := exprObsOnce("body matches "+p, d), exprObsOnce("body not matches "+p, d), exprObsOnce("not ( body matches "+p+" )", d)
+				r.Evaluations += 3
+				r.Seen(fmt.Sprintf("huge-subject|%d|%s|%s", n, p, pos))
+				c := map[string]interface{}{"expression": "body [not] matches " + p, "datum": fmt.Sprintf("body of %d bytes (%T)", n, d.(map[string]interface{})["body"])}
+				if neg != flipIfOK(pos) {
+					r.Violate("complement", fmt.Sprintf("huge|%d|%s", n, p), c, "matches: "+pos+", not matches: "+neg)
+				}
+				if neg != wrapped {
+					r.Violate("not-wrapper", fmt.Sprintf("huge|%d|%s", n, p), c, "not matches: "+neg+", not ( matches ): "+wrapped)
+				}
+			}
+		}
+	}
+}
+
+// C08: tag names that are legal struct-tag keys without being identifiers
+type OddTags struct {
+	Name  string
+	Token string `api-filter:"-" x.y:"-" a/b:"tok"`
+	Ren   string `api-filter:"ren" x.y:"ren" a/b:"-"`
+}
+
+func c08OddTagNames(r *Run) {
+	a := OddTags{Name: "n", Token: "alpha", Ren: "r"}
+	b := OddTags{Name: "n", Token: "beta", Ren: "r"}
+	for _, tag := range []string{"api-filter", "x.y"} {
+		for _, e := range []string{`Token == "alpha"`, "Token is empty", `Token matches "a"`, `"alpha" in Token`, "ren == r", "Ren == r", `any L as x { x.Token == "alpha" }`} {
+			var da, db interface{} = a, b
+			if strings.HasPrefix(e, "any") {
+				da, db = map[string]interface{}{"L": []OddTags{a}}, map[string]interface{}{"L": []OddTags{b}}
+			}
+			ca := evalCase{expr: e, d: da, tag: tag}
+			cb := evalCase{expr: e, d: db, tag: tag}
+			oa, ob := rawOutcome(&ca), rawOutcome(&cb)
+			r.Evaluations += 2
+			r.Seen("odd-tag|" + tag + "|" + e + "|" + classOf(oa))
+			if oa != ob {
+				r.Violate("hidden-field-observable", "odd-tag|"+tag+"|"+e, map[string]interface{}{"expression": e, "tag": tag, "datum": describe(da), "datum_b": describe(db)}, oa+" vs "+ob)
+			}
+		}
+		// the renamed field answers to its tag under that tag name, and only to it
+		for e, want := range map[string]string{"ren == r": "T", "Ren == r": "E", `Token == "alpha"`: "E"} {
+			c := evalCase{expr: e, d: a, tag: tag}
+			if o := classOf(c.obs()); o != want {
+				r.Violate("tag-name-governs-lookup", "odd-tag|"+tag+"|"+e, map[string]interface{}{"expression": e, "tag": tag, "datum": describe(a)}, "expected "+want+" got "+o)
+			}
+		}
+	}
+}
+
+// C14: an entry replaced in place between two calls (same map, same length): the second call sees the map as it is now
+func c14ReplacedInPlace(r *Run) {
+	for _, e := range []string{"any m as _, v { v.x == 1 }", "all m as k { k != z }", "any m as k, v { k == z and v.x == 2 }", "all m as _, v { v.x != 2 }"} {
+		ev, err := bexpr.CreateEvaluator(e)
+		if err != nil {
+			continue
+		}
+		for round := 0; round < 40; round++ {
+			m := map[string]interface{}{"a": map[string]interface{}{"x": 1}, "b": map[string]interface{}{"x": 3}, "c": map[string]interface{}{"x": 4}}
+			d := map[string]interface{}{"m": m}
+			evalObs(ev, d)
+			delete(m, "a")
+			m["z"] = map[string]interface{}{"x": 2}
+			got := evalObs(ev, d)
+			want := exprObsOnce(e, map[string]interface{}{"m": map[string]interface{}{"b": map[string]interface{}{"x": 3}, "c": map[string]interface{}{"x": 4}, "z": map[string]interface{}{"x": 2}}})
+			r.Evaluations += 3
+			r.Seen("replaced-in-place|" + e + "|" + got)
+			if got != want {
+				r.Violate("order-dependent-evaluate", "replaced-in-place|"+e, map[string]interface{}{"expression": e, "datum": describe(d)}, "after replacing an entry in place: "+got+"; a fresh evaluator on an equal fresh map: "+want)
+				break
+			}
+		}
+	}
+}
+
+// C16: literals that differ only in the blanks inside them, created one after the other
+func c16BlankTwinsInLiterals(r *Run) {
+	twins := [][]string{{"a b", "a  b", "a\tb", "a\nb", "a b "}, {" ", "  ", "\t", ""}, {"x", " x", "x ", " x "}}
+	for _, grp := range twins {
+		for _, style := range []int{0, 1} {
+			for _, s := range grp {
+				lit := quoteDouble(s)
+				if style == 1 {
+					if strings.ContainsAny(s, "`\r") {
+						continue
+					}
+					lit = "`" + s + "`"
+				}
+				for _, x := range grp {
+					e := "X == " + lit
+					o := exprObs(e, map[string]interface{}{"X": x})
+					r.Evaluations++
+					r.Seen(fmt.Sprintf("blank-twins|%q|%q|%d|%s", s, x, style, o))
+					want := "F"
+					if x == s {
+						want = "T"
+					}
+					if o != want {
+						r.Violate("literal-fidelity", fmt.Sprintf("blank-twins|%q|%q", s, x), map[string]interface{}{"expression": e, "datum": fmt.Sprintf("X = %q", x)}, "expected "+want+" got "+o)
+					}
+				}
+			}
+		}
+	}
+}
+
+// C03: evaluators for A, B and A or B / A and B, each REUSED over documents in which a field changes kind
+func c03ReusedAcrossKinds(r *Run) {
+	docs := []interface{}{map[string]interface{}{"ready": true, "load": 2}, map[string]interface{}{"ready": false, "load": 1.5}, map[string]interface{}{"ready": false, "load": "1.5"}, map[string]interface{}{"ready": true, "load": int8(1)}, map[string]interface{}{"ready": false, "load": 2}}
+	for _, ab := range [][2]string{{"ready == true", "load == 1.5"}, {"ready != true", "load == 2"}, {"ready == true", `load == "1.5"`}} {
+		evs := map[string]*bexpr.Evaluator{}
+		for name, e := range map[string]string{"A": ab[0], "B": ab[1], "or": "( " + ab[0] + " ) or ( " + ab[1] + " )", "and": "( " + ab[0] + " ) and ( " + ab[1] + " )"} {
+			if ev, err := bexpr.CreateEvaluator(e); err == nil {
+				evs[name] = ev
+			}
+		}
+		if len(evs) != 4 {
+			continue
+		}
+		for pass := 0; pass < 2; pass++ {
+			for di, d := range docs {
+				a, b := evalObs(evs["A"], d), evalObs(evs["B"], d)
+				or, and := evalObs(evs["or"], d), evalObs(evs["and"], d)
+				r.Evaluations += 4
+				r.Seen(fmt.Sprintf("reused-across-kinds|%s|%d|%s%s", ab[1], di, a, b))
+				wantOr, wantAnd := b, b
+				if classOf(a) == "E" || a == "T" {
+					wantOr = a
+				}
+				if classOf(a) == "E" || a == "F" {
+					wantAnd = a
+				}
+				c := map[string]interface{}{"A": ab[0], "B": ab[1], "datum": describe(d), "document_number": di + 1 + pass*len(docs)}
+				if classOf(or) != classOf(wantOr) {
+					r.Violate("or-table", fmt.Sprintf("reused|%s|%d", ab[1], di), c, "A: "+a+", B: "+b+", A or B on the same (reused) evaluators: "+or)
+				}
+				if classOf(and) != classOf(wantAnd) {
+					r.Violate("and-table", fmt.Sprintf("reused|%s|%d", ab[1], di), c, "A: "+a+", B: "+b+", A and B on the same (reused) evaluators: "+and)
+				}
+				if fresh := exprObsOnce(ab[1], d); classOf(fresh) != classOf(b) {
+					r.Violate("history-dependent", fmt.Sprintf("reused-b|%s|%d", ab[1], di), c, "B on a reused evaluator: "+b+", on a fresh one: "+fresh)
+				}
+			}
+		}
+	}
+	// a quantifier that cannot be evaluated at all, in the operand the short-circuit skips
+	d := map[string]interface{}{"a": 1, "m": map[string]interface{}{"k": 1}}
+	for e, want := range map[string]string{"a == 1 or ( all m as k, k { k == a } )": "T", "a == 2 and ( any m as k, k { k == a } )": "F", "any m as x { a == 1 or ( all m as k, k { k == a } ) }": "T", "a == 2 or ( all m as k, k { k == a } )": "E"} {
+		o := exprObsOnce(e, d)
+		r.Evaluations++
+		r.Seen("unreached-bad-quantifier|" + e)
+		if classOf(o) != want {
+			r.Violate("short-circuit", "unreached-bad-quantifier|"+e, map[string]interface{}{"expression": e, "datum": describe(d)}, "expected "+want+" got "+o)
+		}
+	}
+}
+
+// C18: a budget that suffices for the parse says nothing about the size of the data
+func c18BigCollectionBudget(r *Run) {
+	big := make([]int, 6000)
+	for i := range big {
+		big[i] = i + 1
+	}
+	d := map[string]interface{}{"big": big, "m": map[string]interface{}{"k": big}}
+	for _, e := range []string{"any big as x { x == 6000 }", "all big as i, x { x != 0 and i != 7000 }", "any m.k as x { x == 5999 or x == 6000 }", "6000 in big"} {
+		base := exprObsOnce(e, d)
+		_, _, N := grammar.VerifParse("", []byte(e))
+		for _, b := range []uint64{N, N + 1, 2 * N, 5000, 10000, 1 << 20} {
+			o := exprObsOnce(e, d, bexpr.WithMaxExpressions(b))
+			r.Evaluations++
+			r.Seen(fmt.Sprintf("big-collection-budget|%s|%d", e, b))
+			if o != base {
+				r.Violate("neutral-setting", fmt.Sprintf("big-collection|%s|%d", e, b), map[string]interface{}{"expression": e, "datum": "a list of 6000 integers", "budget": b, "parse_steps": N}, "with the budget "+o+", without "+base)
 			}
 		}
 	}
